@@ -1,0 +1,128 @@
+//go:build verif
+// +build verif
+
+package astisub
+
+import (
+	"time"
+
+	"github.com/asticode/go-astikit"
+	"github.com/asticode/go-astits"
+)
+
+// Verification hooks for the teletext reader (build tag "verif"): exported forwarders over the
+// unexported teletext functions. Nothing here is compiled without the tag.
+
+// VerifTeletextPES is one PES packet of the teletext PID as the reader sees it
+type VerifTeletextPES struct {
+	Data []byte
+	PTS  int64 // presentation time in ns (time.Unix(0, PTS))
+}
+
+// VerifTeletextRun drives teletextPageBuffer / teletextCharacterDecoder / teletextPage.parse over a
+// list of PES payloads exactly as the data loop of ReadFromTeletext does once the PID is known
+func VerifTeletextRun(page int, pes []VerifTeletextPES) *Subtitles {
+	s := &Subtitles{}
+	cd := newTeletextCharacterDecoder()
+	b := newTeletextPageBuffer(page, cd)
+	var firstTime, lastTime time.Time
+	var ps []*teletextPage
+	for _, p := range pes {
+		t := time.Unix(0, p.PTS)
+		if firstTime.IsZero() || firstTime.After(t) {
+			firstTime = t
+		}
+		if lastTime.IsZero() || lastTime.Before(t) {
+			lastTime = t
+		}
+		ps = append(ps, b.process(&astits.PESData{Data: p.Data}, t)...)
+	}
+	ps = append(ps, b.dump(lastTime)...)
+	for _, p := range ps {
+		p.parse(s, cd, firstTime)
+	}
+	return s
+}
+
+func verifTeletextDecoder(x28, m29 *uint32, code uint8) *teletextCharacterDecoder {
+	cd := newTeletextCharacterDecoder()
+	if m29 != nil {
+		cd.setTripletM29(*m29)
+	}
+	if x28 != nil {
+		cd.setTripletX28(*x28)
+	}
+	cd.updateCharset(astikit.UInt8Ptr(code), false)
+	return cd
+}
+
+// VerifParseTeletextRow runs parseTeletextRow with the character set selected by the triplets and the page's code
+func VerifParseTeletextRow(x28, m29 *uint32, code uint8, row []byte) *Item {
+	i := &Item{}
+	parseTeletextRow(i, verifTeletextDecoder(x28, m29, code), nil, row)
+	return i
+}
+
+// VerifTeletextCharset returns what the character decoder yields for the bytes 0x00..0xff
+func VerifTeletextCharset(x28, m29 *uint32, code uint8) (o [][]byte) {
+	cd := verifTeletextDecoder(x28, m29, code)
+	for c := 0; c < 256; c++ {
+		o = append(o, cd.decode(byte(c)))
+	}
+	return
+}
+
+// VerifTeletextCharsetEntry is one entry of teletextCharsets
+type VerifTeletextCharsetEntry struct {
+	Key1, Key2 uint8
+	G0         [][]byte
+	National   [][]byte // nil when the entry has no national option subset
+}
+
+// VerifTeletextTables is a dump of the teletext tables of the running package
+type VerifTeletextTables struct {
+	Entries   []VerifTeletextCharsetEntry
+	DefaultG0 [][]byte
+	Positions []uint8
+	Hamming   []int // -1: uncorrectable
+	Parity    []bool
+}
+
+// VerifDumpTeletextTables dumps the character tables (and the astikit Hamming 8/4 and parity tables)
+func VerifDumpTeletextTables() (t VerifTeletextTables) {
+	for k1 := 0; k1 < 256; k1++ {
+		v1, ok := teletextCharsets[uint8(k1)]
+		if !ok {
+			continue
+		}
+		for k2 := 0; k2 < 256; k2++ {
+			v2, ok := v1[uint8(k2)]
+			if !ok {
+				continue
+			}
+			e := VerifTeletextCharsetEntry{Key1: uint8(k1), Key2: uint8(k2)}
+			if v2.g0 != nil {
+				e.G0 = append(e.G0, v2.g0[:]...)
+			}
+			if v2.national != nil {
+				e.National = append(e.National, v2.national[:]...)
+			}
+			t.Entries = append(t.Entries, e)
+		}
+	}
+	t.DefaultG0 = append(t.DefaultG0, teletextCharsetG0Latin[:]...)
+	t.Positions = append(t.Positions, teletextNationalSubsetCharactersPositionInG0[:]...)
+	for i := 0; i < 256; i++ {
+		v, ok := astikit.ByteHamming84Decode(uint8(i))
+		if ok {
+			t.Hamming = append(t.Hamming, int(v))
+		} else {
+			t.Hamming = append(t.Hamming, -1)
+		}
+		_, ok = astikit.ByteParity(uint8(i))
+		t.Parity = append(t.Parity, ok)
+	}
+	return
+}
+
+func VerifTeletextPESDataType(i uint8) string { return teletextPESDataType(i) }
